@@ -303,6 +303,15 @@ def step (s : St) (line : String) : IO St := do
   | ["inj", l, r] => return { s with injs := s.injs ++ [{ lang := natOf l, ranges := parseRanges r }] }
   | ["locals", p] => return { s with locals := parseQuads p }
   | ["attr", m] => return { s with attrMode := natOf m }
+  | ["outcome", o, expect] =>
+    -- a step of a history run with a cancellation flag
+    let n := s.src.length
+    let okStream := if o == "completed" then judgeEvents n s.evs else judgePrefix n s.evs
+    let ignored := expect.startsWith "k" && o == "completed" && s.evs.length > natOf (expect.drop 1).toString + 300
+    let okOutcome := (o == "cancelled" || o == "completed") && !(expect == "cancel" && o != "cancelled") && !ignored
+    let clause := if !okOutcome then "cancel-outcome" else if !okStream then (if o == "completed" then "events-wellformed" else "cancelled-prefix") else "-"
+    IO.println s!"{s.id} kind=P outcome={o} expect={expect} judge={if okStream && okOutcome then "ok" else "FAIL"} clause={clause} nev={s.evs.length}"
+    return s
   | ["capirc", c] => return { s with capirc := c }
   | ["capierr", name, got, want] =>
     IO.println s!"{s.id} kind=E name={name} got={got} want={want} judge={if got == want then "ok" else "FAIL"}"
